@@ -798,6 +798,11 @@ def Array(
     class Array(ArrayType):
         length: Union[USINT, UINT, UDINT, ULINT, int, None] = length_
         element_type: Union[DataType, Type[DataType]] = element_type_
+        #: elements are bit strings: values are the flat list of bits
+        _bit_elements: bool = issubclass(
+            element_type_ if isinstance(element_type_, type) else type(element_type_),
+            BitArrayType,
+        )
 
         @classmethod
         def encode(cls, values: List[Any], length: Optional[int] = None) -> bytes:
@@ -813,7 +818,7 @@ def Array(
                 _len = len(values)
 
             try:
-                if issubclass(cls.element_type, BitArrayType):
+                if cls._bit_elements:
                     chunk_size = cls.element_type.size * 8
                     _len = len(values) // chunk_size
                     values = [
@@ -852,7 +857,7 @@ def Array(
 
                 _val = [cls.element_type.decode(stream) for _ in range(_length)]
 
-                if issubclass(cls.element_type, BitArrayType):
+                if cls._bit_elements:
                     return list(chain.from_iterable(_val))
 
                 return _val
